@@ -136,12 +136,11 @@ pub proof fn lemma_key_injective(a: TokenInner, b: TokenInner)
     ensures a == b,
 {
     broadcast use TokenInner::lemma_ranges;
-    assert(a.ssub() == a.key() % 0x1_0000);
-    assert(b.ssub() == b.key() % 0x1_0000);
-    assert(a.sver() == (a.key() / 0x1_0000) % 0x1_0000);
-    assert(b.sver() == (b.key() / 0x1_0000) % 0x1_0000);
-    assert(a.sid() == a.key() / 0x1_0000_0000);
-    assert(b.sid() == b.key() / 0x1_0000_0000);
+    // linear arithmetic only (no div/mod): the three fields are digits of the key in base 2^16 / 2^32
+    if a.sid() < b.sid() { assert(a.key() < (a.sid() + 1) * 0x1_0000_0000); assert(false); }
+    if b.sid() < a.sid() { assert(b.key() < (b.sid() + 1) * 0x1_0000_0000); assert(false); }
+    if a.sver() < b.sver() { assert(false); }
+    if b.sver() < a.sver() { assert(false); }
     TokenInner::lemma_ext(a, b);
 }
 
